@@ -6,6 +6,8 @@ import vf
 
 
 def run(ctx):
+    if ctx.replay_in:
+        lq.replay_mode(ctx)
     try:
         lq.standard(ctx, "C43", ("LedgerQuery_C43.cfg", "LedgerQuery_C43t.cfg"), ["Submit:ok", "Restart"], {"views", "bloom", "history"},
                     tv=({"ntraces": 3, "nsteps": 40}, {"ntraces": 10, "nsteps": 80}), extra=section,
